@@ -198,7 +198,13 @@ func c12Run(c *core.Ctx) {
 		}
 		toks := gen.UnparseProgram(prog, false)
 		for _, semi := range []int{0, 1} {
-			src := gen.Render(toks, func(int) string { return "\n" }, func(int) int { return semi })
+			// a line break in every gap, except in front of a postfix operator (restricted production)
+			src := gen.Render(toks, func(i int) string {
+				if toks[i].Role == "postfix" {
+					return " "
+				}
+				return "\n"
+			}, func(int) int { return semi })
 			if _, _, ok := ref.GShape(src); ok {
 				c.Inc("valid_programs")
 				c.Inc("all_lf_layout_programs")
